@@ -174,7 +174,7 @@ def family_c07(sig, api, rnd, n_per_type, nfacts, max_stop):
     else:
         pre, nh = prefix(sig, api, n_per_type)
         facts = random_facts(sig, api, rnd, nh, nfacts)
-        more = random_facts(sig, api, rnd, nh, 2, with_equate=False)
+        more = random_facts(sig, api, rnd, nh, 2, with_equate=True)
     fin = {"op": "close", "tag": "fam:C07"}
     members = [pre + facts + [dict(fin)]]
     for j in range(max_stop + 1):
